@@ -98,6 +98,8 @@ def gen_quant(w, r, cfg):
 
 def gen_let(w, r, cfg):
     kind = r.choice(['bool', 'fn', 'name'])
+    if r.random() < 0.03:
+        return dict(op='let', kind=kind, how='let', a=_ri(r), pairs=[], empty_ok=1, keep=False)
     n = r.choice([1, 1, 2, 2, 3, w.nv])
     pairs = []
     for _ in range(n):
